@@ -31,8 +31,10 @@ CONSTANTS MaxSeq,      \* length of sequences of whole calls
 Calls == {"Join", "Leave", "Shutdown", "UpdateNode", "LocalNode", "Members", "NumMembers",
           "SendBestEffort", "SendReliable", "Ping", "GetHealthScore"}
 \* background events: an accusation about the node arrives, the peer crashes, aged-out records are
-\* reaped, the node's health score degrades (missed probes / nacks)
-Background == {"Accuse", "PeerCrash", "Reap", "Degrade"}
+\* reaped, the node's health score degrades (missed probes / nacks), a third party's suspicion about the healthy
+\* peer arrives (until the peer refutes, the node lists its only peer as suspect: Leave / UpdateNode must still
+\* wait for their announcement to go out)
+Background == {"Accuse", "PeerCrash", "Reap", "Degrade", "SuspectPeer"}
 Steps == Calls \cup Background
 Gates == [Leave |-> {"leave.afterFlag", "leave.afterRead", "leave.beforeWait"},
           UpdateNode |-> {"update.afterRead", "update.afterInc"},
